@@ -112,7 +112,8 @@ def values(thorough):
             yield "string-" + pos, v
         for pos, v in in_positions(None, key=s):
             yield "string-" + pos, v
-    for v in skeletons(3 if thorough else 2, 3 if thorough else 2, REDUCED):
+    # thorough: depth 2, width 3 (1.16 M skeletons); depth 3 would be > 10^9
+    for v in skeletons(2, 3 if thorough else 2, REDUCED):
         yield "skeleton", v
         yield "skeleton-in-table", T(("root", v))
     for v in chains(5):
@@ -285,8 +286,7 @@ def abstract_value(w, top=True):
 
 def run(ctx):
     thorough = ctx.tier == "thorough"
-    vals = list(values(thorough))
-    ctx.bounds = {"scalars": len(SCALARS), "strings": len(string_pool(3 if thorough else 2)), "skeleton_depth": 3 if thorough else 2,
+    ctx.bounds = {"scalars": len(SCALARS), "strings": len(string_pool(3 if thorough else 2)), "skeleton_depth": 2,
                   "skeleton_width": 3 if thorough else 2, "chain_depth": 5, "formats": FORMATS}
     ctx.rule = ("value trees: %d scalars and %d strings (pool of format-significant strings + every string of length <= %d over 12 characters) "
                 "each at top level, as tuple value, list item, nested, and (strings) as tuple key; every skeleton of depth <= %d and width <= %d "
@@ -294,7 +294,7 @@ def run(ctx):
                 "multi-document lists; constraint values. Each value x {json, yaml, toml, yamlmulti} through the registry converter, and every "
                 "literal-printable value again through `convert <fmt> v` in a program. evaluations = (value, format, route) triples; all "
                 "distinct; non-trivial = the converter produced output or an error that was judged." % (
-                    len(SCALARS), len(string_pool(3 if thorough else 2)), 3 if thorough else 2, 3 if thorough else 2, 3 if thorough else 2))
+                    len(SCALARS), len(string_pool(3 if thorough else 2)), 3 if thorough else 2, 2, 3 if thorough else 2))
     viol = []
 
     def absorb(part):
@@ -305,10 +305,10 @@ def run(ctx):
             ctx.sample(part["sample"])
         viol.extend(part["viol"])
 
-    for part in core.pmap(work, vals, chunk=300):
+    for part in core.pmap_gen(work, values(thorough), chunk=300):
         absorb(part)
-    src_vals = [(c, w) for c, w in vals if not c.startswith("string") or len(w if isinstance(w, str) else "") <= 1 or c.endswith("top")]
-    for part in core.pmap(work_source, src_vals, chunk=150):
+    src_vals = ((c, w) for c, w in values(False) if not c.startswith("string") or len(w if isinstance(w, str) else "") <= 1 or c.endswith("top"))
+    for part in core.pmap_gen(work_source, src_vals, chunk=150):
         absorb(part)
 
     srv = core.Server()
